@@ -14,6 +14,7 @@ pub mod c13;
 pub mod c14;
 pub mod c15;
 pub mod c16;
+pub mod c18;
 pub mod c19;
 pub mod net;
 pub mod smoke;
@@ -23,6 +24,7 @@ pub fn run(a: &Args) -> Report {
     match a.prop.as_str() {
         "smoke" => smoke::run(a),
         "c19" => c19::run(a),
+        "c18" => c18::run(a),
         "c10" => c10::run(a),
         "c07" => c07::run(a),
         "c04" => c04::run(a),
